@@ -342,8 +342,10 @@ def run_unit(u, tier, keep=False):
             pid = r.get('property', '')
             st = r.get('status')
             if desc == 'canary':
-                canary_seen = True
-                rec['canary'] = st
+                # other entry points of the same file are compiled in but unreachable
+                if sl.get('function') == u['entry']:
+                    canary_seen = True
+                    rec['canary'] = st
                 continue
             rec['n_props'] += 1
             ob = dict(id=pid, description=desc, status=st, file=sl.get('file'),
@@ -486,6 +488,7 @@ def native_replay(u, values, tmp):
     open(src, 'w').write(prog)
     exe = os.path.join(tmp, 'native')
     cmd = ['clang', '-g', '-O0', '-w', '-fsanitize=address,undefined',
+           '-fno-sanitize=null',     # iv_container_of() computes offsets from a null pointer
            '-fno-sanitize-recover=undefined', '-fno-omit-frame-pointer', src, '-o', exe]
     for w in wrap_list(u):
         cmd.append('-Wl,--wrap=' + w)
@@ -524,6 +527,13 @@ def write_replay(pid, u, rec, ob, tier):
     safe = re.sub(r'[^A-Za-z0-9_.-]', '_', ob['id'])
     path = os.path.join(VERIF, 'replays', '%s-%s-%s.json' % (pid, u['name'], safe))
     values = verif_in_from_trace(ob.get('trace'))
+    if not values:
+        # cbmc attaches the full trace only to some properties: borrow the input of another
+        # failed obligation of the same unit (same program, some failing input)
+        for o2 in rec['failures']:
+            values = verif_in_from_trace(o2.get('trace'))
+            if values:
+                break
     tmp = tempfile.mkdtemp(prefix='verif_replay_')
     try:
         reproduced, text = native_replay(u, values, tmp)
@@ -624,11 +634,13 @@ def check(pid, tier, jobs, only=None, keep=False, quiet=False):
             pid, rec['name'], ob['id'], ob['description']))
     def vkey(v):
         f = str(v[1].get('file') or '')
+        if v[1].get('text'):
+            return 0        # explicitly tagged clause of this property
         if f.startswith('<'):
-            return 2
+            return 3
         if f.startswith(REPO):
-            return 0
-        return 1
+            return 1
+        return 2
     violations.sort(key=vkey)
     seen_units = set()
     for rec, ob in violations:
